@@ -908,7 +908,7 @@ class Curve(BaseCurve):
         """
         self.degree_clean(tolerance=tolerance)
         self.knot_clean(tolerance=tolerance)
-        if self.weights is None:
+        if self.weights is None or self.ctrlpoints is None:
             return
         # Try to reduce to spline
         knotvector = tuple(self.knotvector)
